@@ -287,11 +287,11 @@ def run_shard(spec):
     part, parts = spec["part"], spec["parts"]
     rng = derive_rng("c10", spec["seed"], part)
     check_ranges(c, 34 if tier == "quick" else 70, part, parts)
-    check_huge_ranges(c, rng, 300 if tier == "quick" else 5000)
+    check_huge_ranges(c, rng, 300 if tier == "quick" else 40000)
     check_consts(c, 300, 8 if tier == "quick" else 12, part, parts)
     check_bitcount(c, 5000 if tier == "quick" else 50000, part, parts)
-    check_enums(c, rng, 150 if tier == "quick" else 3000)
-    check_const_cast(c, rng, 400 if tier == "quick" else 8000)
+    check_enums(c, rng, 150 if tier == "quick" else 20000)
+    check_const_cast(c, rng, 400 if tier == "quick" else 60000)
     check_inits(c, part, parts, 6 if tier == "quick" else 10)
     out = c.out
     out["violations"].extend(instrument.VIOLATIONS)
